@@ -16,6 +16,8 @@ mod c06;
 mod c11;
 mod alloc;
 mod c17;
+mod srv;
+mod c08;
 
 use cfg::Cfg;
 
@@ -43,6 +45,7 @@ fn main() {
         "c06" => c06::run(&cfg),
         "c11" => c11::run(&cfg),
         "c17" => c17::run(&cfg),
+        "c08" => c08::run(&cfg),
         _ => {
             eprintln!("unknown monitor {name}");
             std::process::exit(2);
